@@ -122,7 +122,16 @@ func runC13(c *Ctx) {
 	c.Check(len(apps) == 1, "C13-R2", "RangeQuery:one append of slice results", drain.Pos(), "one", itoa(len(apps))+" appends inside the fan-in loop")
 	if len(apps) == 1 {
 		pm := parentMap(drain)
-		guards := lexicalGuards(pm, apps[0].Inner, drain)
+		// no guard, or only "this slice did not fail" (`if result.err == nil { append } else …`)
+		var guards []Atom
+		for _, g := range lexicalGuards(pm, apps[0].Inner, drain) {
+			if x, isNil, ok := nilAtom(info, g); ok && isNil {
+				if sel, isSel := ast.Unparen(x).(*ast.SelectorExpr); isSel && sel.Sel.Name == "err" && fieldOwner(info, sel) == "internal/promapi.queryResult" {
+					continue
+				}
+			}
+			guards = append(guards, g)
+		}
 		c.Check(len(guards) == 0, "C13-R2", "RangeQuery:error-free slice results appended unconditionally", apps[0].Inner.Pos(), "no guard", "the append of a slice result is conditional: some slice responses can be dropped")
 		// the only way to skip it is the err != nil branch
 		bad := ""
